@@ -1013,8 +1013,12 @@ lpc_gate_harness!(c18_lpc_verify_gate_lengths, false, (1, 2, 1), (2, 1, 1), (1, 
 /// `Frame::new(header, K sub-frames)` for a header as `FrameHeader::new` returns it (block size
 /// 1..=32767, 1..=8 independent channels or a stereo pair: datatype::verif::c17_frame_header_new)
 /// with a symbolic channel assignment and K constant sub-frames as `Constant::new` returns them:
-/// returns; Ok <=> the channel count is K; Ok ==> the frame verifies and holds the K sub-frames.
-fn frame_new<const K: usize>() -> bool {
+/// returns; Ok <=> the channel count is K; Ok ==> the frame holds the header and the K sub-frames
+/// and verifies.  `Frame::verify()` is: every sub-frame verifies, a precomputed bitstream (absent
+/// after `new`) matches, the header verifies; the quick units check these conjuncts, the thorough
+/// unit calls `Frame::verify()` itself (504 s even for an empty frame: its body pulls in the whole
+/// frame writer and CRC-16).
+fn frame_new<const K: usize>(call_verify: bool) -> bool {
     let n: u8 = kani::any();
     kani::assume(1 <= n && n <= 8);
     let which: u8 = kani::any();
@@ -1042,7 +1046,23 @@ fn frame_new<const K: usize>() -> bool {
         Ok(f) => {
             assert!(channels == K);
             assert!(f.subframe_count() == K && f.block_size() == x as usize + 1);
-            assert!(f.verify().is_ok());
+            if call_verify {
+                assert!(f.verify().is_ok());
+            } else {
+                assert!(f.precomputed_bitstream().is_none());
+                assert!(f.header().verify().is_ok());
+                let mut ch = 0;
+                while ch < K {
+                    // (matching the variant keeps the other variants' verify out of the model)
+                    match f.subframe(ch) {
+                        Some(SubFrame::Constant(c)) => assert!(c.verify().is_ok()),
+                        _ => assert!(false),
+                    }
+                    ch += 1;
+                }
+            }
+            // skip the drop glue of `Vec<SubFrame>` (all four variants): irrelevant to C18
+            std::mem::forget(f);
             true
         }
         Err(_) => {
@@ -1053,13 +1073,13 @@ fn frame_new<const K: usize>() -> bool {
 }
 
 macro_rules! frame_new_harness {
-    ($name:ident, $k:expr, $reachable:expr) => {
+    ($name:ident, $k:expr, $call_verify:expr, $reachable:expr) => {
         #[kani::proof]
         #[kani::unwind(8)]
         #[kani::stub(std::fmt::format, stub_format)]
         #[kani::stub(VerifyError::within, stub_within)]
         fn $name() {
-            let ok = frame_new::<$k>();
+            let ok = frame_new::<$k>($call_verify);
             if $reachable {
                 kani::cover!(ok);
             }
@@ -1068,12 +1088,14 @@ macro_rules! frame_new_harness {
     };
 }
 
-//@ unit name=c18_frame_new_k0 props=C18 tier=quick kind=bounded timeout=600 funcs="Frame::new; Frame::from_parts; Frame::verify" bound="no sub-frame; channel assignment (every variant, 1..=8 channels), block size, frame number symbolic"
-//@ unit name=c18_frame_new_k1 props=C18 tier=quick kind=bounded timeout=600 funcs="Frame::new; Frame::from_parts; Frame::verify" bound="1 constant sub-frame; channel assignment, block size, frame number, offset symbolic"
-//@ unit name=c18_frame_new_k2 props=C18 tier=quick kind=bounded timeout=600 funcs="Frame::new; Frame::from_parts; Frame::verify" bound="2 constant sub-frames; channel assignment, block size, frame number, offsets symbolic" note="whole-frame serialisation (CRC-16 over MemSink<u64>) is C08 / bitrepr units; Frame::new / Frame::verify do NOT check that the sub-frames' block size and width agree with the header (see report)"
-frame_new_harness!(c18_frame_new_k0, 0, false);
-frame_new_harness!(c18_frame_new_k1, 1, true);
-frame_new_harness!(c18_frame_new_k2, 2, true);
+//@ unit name=c18_frame_new_k0 props=C18 tier=quick kind=bounded timeout=600 funcs="Frame::new; Frame::from_parts; FrameHeader::verify" bound="no sub-frame; channel assignment (every variant, 1..=8 channels), block size, frame number symbolic"
+//@ unit name=c18_frame_new_k1 props=C18 tier=quick kind=bounded timeout=600 funcs="Frame::new; Frame::from_parts; FrameHeader::verify; SubFrame::verify" bound="1 constant sub-frame; channel assignment, block size, frame number, offset symbolic"
+//@ unit name=c18_frame_new_k2 props=C18 tier=quick kind=bounded timeout=600 funcs="Frame::new; Frame::from_parts; FrameHeader::verify; SubFrame::verify" bound="2 constant sub-frames; channel assignment, block size, frame number, offsets symbolic" note="whole-frame serialisation (CRC-16 over MemSink<u64>) is C08 / bitrepr units; Frame::new / Frame::verify do NOT check that the sub-frames' block size and width agree with the header (see report)"
+//@ unit name=c18_frame_new_k1_verify props=C18 tier=thorough kind=bounded timeout=2400 funcs="Frame::new; Frame::verify" bound="1 constant sub-frame; channel assignment, block size, frame number, offset symbolic; calls Frame::verify() itself"
+frame_new_harness!(c18_frame_new_k0, 0, false, false);
+frame_new_harness!(c18_frame_new_k1, 1, false, true);
+frame_new_harness!(c18_frame_new_k2, 2, false, true);
+frame_new_harness!(c18_frame_new_k1_verify, 1, true, true);
 
 fn new_unknown<const N: usize>() {
     let tag: u8 = kani::any();
@@ -1179,46 +1201,3 @@ fn c18_stream_info_setters() {
     kani::cover!(!r2);
 }
 
-#[kani::proof]
-#[kani::unwind(8)]
-#[kani::stub(std::fmt::format, stub_format)]
-fn x18_fr0() {
-    let header = FrameHeader::from_specs(
-        BlockSizeSpec::ExtraTwoBytes(100),
-        ChannelAssignment::Independent(kani::any()),
-        SampleSizeSpec::B16,
-        SampleRateSpec::R44_1kHz,
-    );
-    let subs: [SubFrame; 0] = [];
-    let r = Frame::new(header, subs.into_iter());
-    kani::cover!(r.is_ok());
-}
-#[kani::proof]
-#[kani::unwind(8)]
-#[kani::stub(std::fmt::format, stub_format)]
-fn x18_fr1() {
-    let header = FrameHeader::from_specs(
-        BlockSizeSpec::ExtraTwoBytes(100),
-        ChannelAssignment::Independent(kani::any()),
-        SampleSizeSpec::B16,
-        SampleRateSpec::R44_1kHz,
-    );
-    let f = Frame::from_parts(header, Vec::new());
-    let r = f.verify();
-    kani::cover!(r.is_ok());
-}
-#[kani::proof]
-#[kani::unwind(8)]
-#[kani::stub(std::fmt::format, stub_format)]
-fn x18_fr2() {
-    let header = FrameHeader::from_specs(
-        BlockSizeSpec::ExtraTwoBytes(100),
-        ChannelAssignment::Independent(kani::any()),
-        SampleSizeSpec::B16,
-        SampleRateSpec::R44_1kHz,
-    );
-    let mut v: Vec<SubFrame> = Vec::with_capacity(2);
-    v.push(Constant::from_parts(101, 5, 16).into());
-    let r = header.channel_assignment().channels() == v.len();
-    kani::cover!(r);
-}
